@@ -5,7 +5,7 @@ every prefix and every single-character substitution of two small documents, all
 output-sink subsets x charset; three entry points (validator, plain reader, context reader).
 Oracle: bool, or X12Error iff some ISA is malformed, or map-not-found EngineError iff the key is absent from maps.xml.
 """
-import io, itertools
+import io, sys, itertools
 from mc import core, corpus, ref, gen, grammar as G
 
 ID = 'C07'
@@ -256,6 +256,9 @@ def materialise(thorough):
 
 def work(shard):
     family, part, nparts = shard
+    # the library's XMLWriter.__del__ writes closing tags to a sink that is already gone when the XML sink aborted;
+    # Python reports that as an 'Exception ignored in ...' line on stderr -- nothing escapes an entry point
+    sys.unraisablehook = lambda *a, **k: None
     P = core.Part()
     for i, (lab, text, loops) in enumerate(ITEMS[family]):
         if i % nparts != part:
